@@ -5,7 +5,7 @@ DED = "contract-based deductive verification: VC generation over go/ssa (loop in
 TB = "Trusted: go/ssa, the govc SSA->SMT translation, z3/cvc5 'unsat', the stdlib contracts listed in the evidence. "
 claimed = {
  "C01": dict(
-   text="Unbounded deductive proof: order, cisdigit, cisalpha, verrevcmp (5 loop contracts) and Compare are verified, from the SSA of the current sources, against a Policy-5.6.12 spec function (runs determined first, digit runs compared as unbounded mathematical integers); every bounds/overflow/termination obligation of these functions is discharged too. A bounded differential harness (independent oracle, cross-checked against the real dpkg) runs beside it as witness search and is reported under coverage.bounded.",
+   text="Unbounded deductive proof: order, cisdigit, cisalpha, verrevcmp (5 loop contracts), Compare and the sort adapter's Slice.Less are verified, from the SSA of the current sources, against a Policy-5.6.12 spec function (runs determined first, digit runs compared as unbounded mathematical integers); every bounds/overflow/termination obligation of these functions is discharged too. A bounded differential harness (independent oracle, cross-checked against the real dpkg) runs beside it as witness search and is reported under coverage.bounded.",
    note=TB+"Assumes NUL-free strings (dpkg's C strings; weaker than the parser alphabet).",
    technique=DED, design="3 (C01), Appendix A"),
  "C02": dict(
@@ -25,7 +25,7 @@ claimed = {
    note=TB+"Strings are compared only for equality here, so the uninterpreted string sort is exact.",
    technique=DED, design="3 (C06)"),
  "C18": dict(
-   text="Deductive proof for the version, architecture, dependency, control-paragraph (reader, clearsign front end, checksum and file-list line parsers) and changelog parsers (about 80 functions, 1250 obligations): every BOUNDS/NIL/OVERFLOW/DIV0 obligation (no panic), a decreases clause on every loop and recursion (no hang), value-xor-error postconditions, and checked modifies frames (no write outside arguments and fresh objects, no global writes: calls on disjoint inputs commute). The reflective typed-document decoders and the dynamic race detector are covered by the bounded stand-in (all byte strings up to length 4 per entry point, 233 k mutated seed documents, 64-way concurrent parsing, go run -race in the thorough tier), labelled bounded.",
+   text="Deductive proof for the version, architecture, dependency, control-paragraph (reader, clearsign front end, checksum and file-list line parsers) and changelog parsers (about 80 functions, 1250 obligations): every BOUNDS/NIL/OVERFLOW/DIV0 obligation (no panic), a decreases clause on every loop and recursion (no hang), value-xor-error postconditions, and checked modifies frames (no write outside arguments and fresh objects: calls on disjoint inputs commute); in addition a static SHARED obligation per function of the four parser packages (151 functions, reflective decoders included): outside the package initialiser nothing stores into memory reachable from a package-level variable. The reflective typed-document decoders and the dynamic race detector are covered by the bounded stand-in (all byte strings up to length 4 per entry point, 233 k mutated seed documents, 64-way concurrent parsing, go run -race in the thorough tier), labelled bounded.",
    note=TB+"Reflection-based decoders and scheduling are outside the verifier; they are only exercised by the bounded harness.",
    technique=DED+"; bounded exhaustive stand-in for the remaining entry points", design="3 (C18)"),
 
@@ -42,15 +42,15 @@ claimed = {
    note=TB+"reflect-based encode/decode: bounded only.",
    technique=DED+"; bounded exhaustive stand-in for the reflective walkers", design="3 (C09), 6"),
  "C10": dict(
-   text="Deductive proof of the leaf code and accessors: the checksum-line parser (3- and 2-column forms, algorithm tag, by-hash name), the four element types each tagging their OWN algorithm, the .changes file-list line parser, HasArchAll, Maintainers (both), AbsFiles (both), DebianSource, SourcePackage, BestChecksums.Checksums - each against a postcondition taken from the statement. Static TAG obligations (no solver): for every row of a Debian layout table (8 document types, 113 rows) a struct field with that key exists and its Go type, delim and strip realise the field's syntax, under a trusted contract for the reflective walker. Whole-document decoding is checked by the bounded stand-in (37 k documents), labelled bounded.",
-   note=TB+"The reflective walker's contract (field := conv(kind, delim, strip, Values[key])) is assumed; strings.Fields/Split/Contains, path.Join, filepath.Dir/Base are uninterpreted.",
+   text="Deductive proof of the leaf code and accessors: the checksum-line parser (3- and 2-column forms, algorithm tag, by-hash name), the four element types each tagging their OWN algorithm, the .changes file-list line parser, HasArchAll, Maintainers (both), AbsFiles (both), DebianSource, SourcePackage, BestChecksums.Checksums - each against a postcondition taken from the statement; the ten on-demand dependency accessors hand the text of their OWN field, unchanged, to the (re-verified) dependency parser exactly once and return its result; the .deb control loader decodes the FIRST member of control.tar.* whose cleaned name is 'control' into deb.Control (tar members as a trusted ghost sequence). Static TAG obligations (no solver): for every row of a Debian layout table (8 document types, 113 rows) a struct field with that key exists and its Go type, delim and strip realise the field's syntax, under a trusted contract for the reflective walker. Whole-document decoding is checked by the bounded stand-in (37 k documents), labelled bounded.",
+   note=TB+"The reflective walker's contract (field := conv(kind, delim, strip, Values[key])) is assumed, as are control.Unmarshal's frame (it writes the object it is given), ArEntry.Tarfile, tar.Reader.Next and path.Clean; strings.Fields/Split/Contains, path.Join, filepath.Dir/Base are uninterpreted.",
    technique=DED+"; static obligations over struct tags; bounded stand-in for whole documents", design="3 (C10), 6"),
  "C11": dict(
    text="Deductive proof of the wiring (openpgp trusted): decodeClearsig/NewParagraphReader parse exactly the signed text of the input and nothing else; with a keyring, success implies that CheckDetachedSignature accepted exactly that text against exactly that keyring, and the reported signer is the entity it returned; without a check there is no signer; unsigned input is passed through without a signer. Bounded stand-in (28 k corrupted clearsigned inputs with real keys) beside it.",
    note=TB+"clearsign.Decode and openpgp.CheckDetachedSignature are assumed (an empty keyring validates nothing; unforgeability is not ours to prove); ioutil.ReadAll, bufio, bytes readers over ghost content.",
    technique=DED+" with trusted contracts on the OpenPGP library", design="3 (C11), 6"),
  "C12": dict(
-   text="Deductive proof over a ghost byte stream per hash object (digest functions uninterpreted): GetHash's name table; the Hasher invariant size == len(stream) under the named algorithm, preserved by every Write of any size (so any chunking gives the same stream), Size and Sum; the four constructors forward to the target and to one fresh Hasher per requested name, in order, pairwise distinct; FileHash.Verifier hashes with the entry's own algorithm against the entry's own recorded hash, Close accepts iff the full digest equals it (first call decides); FileHashFromHasher; BestChecksums selection and element tags (TAG obligations). Bounded stand-in (2 M cases against crypto/*) beside it.",
+   text="Deductive proof over a ghost byte stream per hash object (digest functions uninterpreted): GetHash's name table; the Hasher invariant size == len(stream) under the named algorithm, preserved by every Write of any size (so any chunking gives the same stream), Size and Sum, and - as an object invariant - by every other method the type has or gets (a method added later is verified against it without being listed); the four constructors forward to the target and to one fresh Hasher per requested name, in order, pairwise distinct; FileHash.Verifier hashes with the entry's own algorithm against the entry's own recorded hash, Close accepts iff the full digest equals it (first call decides); FileHashFromHasher; BestChecksums selection and element tags (TAG obligations). Bounded stand-in (2 M cases against crypto/*) beside it.",
    note=TB+"hash.Hash.Write/Sum, crypto/*.New, hex.DecodeString, bytes.Equal, io.MultiWriter/TeeReader are assumed contracts; streams shorter than 2^63 bytes.",
    technique=DED+" with trusted contracts on hash/io", design="3 (C12), 6"),
  "C13": dict(
@@ -59,7 +59,7 @@ claimed = {
    technique=DED, design="3 (C13), 6"),
  "C15": dict(
    text="Deductive proof without any well-formedness precondition: every successful Next advances by at least 60 bytes inside the file (step bound and termination of the loader's member loop), returns a non-negative size with the data inside the file, never panics or overflows; findDeb2Member returns the ONLY member with the prefix or an error (map-range proof: the choice does not depend on iteration order); loadDeb2/loadDeb value xor error. Bounded stand-in (16.8 M corrupted archives) beside it.",
-   note=TB+"decompressors, archive/tar and the reflective control decoder are trusted/havocked (loadDeb2Control/Data).",
+   note=TB+"decompressors, archive/tar members and the reflective control decoder are trusted contracts (ArEntry.Tarfile, tar.Reader.Next, control.Unmarshal, loadDeb2Data); loadDeb2Control itself is verified.",
    technique=DED, design="3 (C15), 6"),
  "C16": dict(
    text="Deductive proof of the wiring (openpgp trusted): CheckDebsig succeeds only if the role's own '_gpg<role>' member and debian-binary exist and there is exactly one control.* and one data.* member - found by the same verified findDeb2Member the loader uses - and CheckDetachedSignature accepted the supplied keyring over the concatenation debian-binary ++ control ++ data of exactly those members' complete contents, with the role member's complete content as signature. Bounded stand-in (7 k signed packages) beside it.",
@@ -70,7 +70,7 @@ claimed = {
    note=TB+"bufio ReadString over ghost input, time.Parse, strings.SplitN assumed. Model conformance: bounded only.",
    technique=DED+"; bounded exhaustive stand-in for model conformance", design="3 (C17), 6"),
  "C20": dict(
-   text="Deductive proof against a ghost file-system effect model (a clock and per-path delivery/source/removal times; every OS call may fail, so all fault sequences are covered at once): for DSC and Changes, Copy/Move deliver every referenced file during the call, strictly before the control file, from the control file's own directory; on failure the control file is not delivered (for Move it is still at its source) and the handle is unchanged; on success the handle points at the new location; Remove deletes the control file last; whatever is delivered, moved or removed is a plain listed name or the control file (confinement), and a non-plain name stops everything before the first effect; CheckFilename accepts exactly the plain names. Bounded stand-in on a real file system (320 scenarios, byte identity) beside it.",
+   text="Deductive proof against a ghost file-system effect model (a clock and per-path delivery/source/removal times; every OS call may fail, so all fault sequences are covered at once): for DSC and Changes, Copy/Move deliver every referenced file during the call, strictly before the control file, from the control file's own directory; on failure the control file is not delivered (for Move it is still at its source) and the handle is unchanged; on success the handle points at the new location; Remove deletes the control file last; whatever is delivered, moved or removed is a plain listed name or the control file (confinement), and a non-plain name stops everything before the first effect; CheckFilename accepts exactly the plain names; AbsFiles (the directory the referenced files are taken from) is re-verified in the same run (callee closure). Bounded stand-in on a real file system (320 scenarios, byte identity) beside it.",
    note=TB+"os.Rename/Remove/Stat and internal.Copy (temp file + rename) are assumed contracts over the ghost model; byte identity of copies is checked only by the bounded harness.",
    technique=DED+" with a ghost effect model for the OS", design="3 (C20), 6"),
 }
